@@ -42,7 +42,7 @@ PLAN = {
               "min_counters": {"lines_cleaned": 160000, "ip_tokens_checked": 32000, "mac_tokens_checked": 10000, "host_tokens_checked": 24000,
                                "keyword_tokens_checked": 8000, "password_secrets_checked": 12000, "pattern_lines_checked": 8000,
                                "survivor_lines": 60000}},
-    "thorough": {"shards": 16, "cases": 12000, "timeout_s": 3300, "min_evaluations": 150000,
+    "thorough": {"shards": 16, "cases": 45000, "timeout_s": 3300, "min_evaluations": 150000,
                  "min_counters": {"lines_cleaned": 1000000}},
 }
 OBF_NAMES = ["hostname", "ip", "keyword", "mac", "password"]
